@@ -368,6 +368,23 @@ class Scanner:
                 self.flag(rel, node, qual, txt(getattr(node, "_parent", node))[:120], "a set is unpacked positionally",
                           self.set_elem(rel, node.value))
 
+    def _identity_attrs(self, elem: str) -> Set[str]:
+        """ attributes hashed by the element class's __hash__ (= its identity for set membership) """
+        name = elem.strip().split(".")[-1]
+        for info in self.ctx.repo.classes.get(name, []):
+            if info.qual != elem.strip():
+                continue
+            found = self.ctx.repo.method(info, "__hash__")
+            if not found:
+                return set()
+            attrs = set()
+            for ret in [r for r in walk_local(found[1]) if isinstance(r, ast.Return)]:
+                for node in ast.walk(ret.value):
+                    if isinstance(node, ast.Attribute) and isinstance(node.value, ast.Name) and node.value.id == "self":
+                        attrs.add(node.attr.lstrip("_"))
+            return attrs
+        return set()
+
     def _singleton(self, rel: str, expr: ast.AST) -> bool:
         module = self.ctx.repo.modules[rel]
         from ..index import UNRESOLVED
@@ -399,6 +416,15 @@ class Scanner:
             if not inner_set:
                 return
             key = kwarg(call, "key")
+            ident = self._identity_attrs(elem)
+            if key is not None and ident and isinstance(key, ast.Lambda) and len(key.args.args) == 1:
+                param = key.args.args[0].arg
+                used = {n.attr for n in ast.walk(key.body) if isinstance(n, ast.Attribute)
+                        and isinstance(n.value, ast.Name) and n.value.id == param}
+                if ident <= used:
+                    self.hold(rel, call, qual, text, f"auto-safe: the sort key contains every identity attribute of "
+                                                     f"{elem.split('.')[-1]} ({sorted(ident)}): equal keys are equal elements")
+                    return
             if key is None and totally_ordered(elem):
                 self.hold(rel, call, qual, text, f"auto-safe: sorted() without key over totally ordered {elem}")
             elif key is None:
